@@ -1285,6 +1285,10 @@ class Walker(object):
                 if any((t.replace(" ", ""), tv) in (("%s==0" % i, False), ("%s!=0" % i, True), ("0<%s" % i, True), ("%s>=1" % i, True), ("not%s" % i, False), (i, True),
                                                     ("%s<=0" % i, False), ("0==%s" % i, False), ("0!=%s" % i, True), ("%s<1" % i, False)) for t, tv in fs):
                     return True
+        # X.split(sep)[1] under `sep in X`
+        if k == 1 and isinstance(e.value, ast.Call) and isinstance(e.value.func, ast.Attribute) and e.value.func.attr == "split" and len(e.value.args) == 1 \
+                and ("%s in %s" % (src(e.value.args[0]), src(e.value.func.value)), True) in fs:
+            return True
         # Y = X.split(sep) ... Y[1] under `sep in X`
         if k == 1 and isinstance(e.value, ast.Name) and n is not None:
             cfg, facts, rd, ix = self.an.flow(self.f)
